@@ -197,6 +197,10 @@ new7 = '''## 7. Trusting the monitors: seeded changes
 |---|---|---|---|---|---|---|---|
 %s
 
+   Three further changes (C17-G, C03-K, C04-F) were caught when they were seeded but are retired (`seeded_retired/`,
+   with the reasons): two now fail regression tests that later repairs of the engine brought with them, and the
+   third no longer changes the behaviour since the global window evaluates expression items per row.
+
 3. If a realistic break leaves no trace in what is recorded, observability is added (another witness column,
    another hook) rather than cleverer inference: examples are `Observe("expand.swap")` for the exact capacity,
    `collect(id)` witnesses everywhere, and the started-Emit counter read inside the sink.
